@@ -99,7 +99,7 @@ def several_batch_axes(S):
         S.forall("arrangement-into-batch-axes-is-irrelevant", Tensor(o2), lambda q: zreal(o2.at(q)) == zreal(o1.at([q[0] + q[1], q[2]])))
 
 
-@scenario("C08", [M + "model.Sequential.__init__", M + "model.Sequential.forward", M + "model.Parallel.__init__", M + "model.Parallel.forward"], configs=["sequential", "parallel"], bounded=BOUND)
+@scenario("C08", [M + "model.Sequential.__init__", M + "model.Sequential.forward", M + "model.Parallel.__init__", M + "model.Parallel.forward"], configs=["sequential", "sequential-permuted-intermediate", "parallel"], bounded=BOUND)
 def compositions(S):
     I = S.I
     N = S.int("N", 1)
@@ -124,6 +124,25 @@ def compositions(S):
         t = tensor_of(o)
         S.forall("sequential-is-composition", o.f["_t"], lambda q: zreal(t.at(q)) == core.select_comp(q[1][0], 2, [(lambda c=c: Bm.out_terms(A.out_terms(row_inputs(q, ["x", "t"])))[c]) for c in range(2)]))
         S.ensure("each-part-evaluated-once", len(A.calls) == 1 and len(Bm.calls) == 1)
+    elif S.cfg == "sequential-permuted-intermediate":
+        # the first model's output space lists the SAME variables as the second model's input space in another order:
+        # the intermediate result is handed over by NAME; a second model over foreign names is rejected
+        vw = mul(S, S.new(RN, "v", 1), S.new(RN, "w", 1))
+        wv = mul(S, S.new(RN, "w", 1), S.new(RN, "v", 1))
+        A = AbstractModel(S, "A", xt, vw)
+        Bm = AbstractModel(S, "B", wv, u)
+        seq = S.new(M + "model.Sequential", A.obj, Bm.obj)
+        o = S.method(seq, "forward", p)
+        t = tensor_of(o)
+
+        def want(q):
+            a = A.out_terms(row_inputs(q, ["x", "t"]))  # (v, w)
+            return Bm.out_terms([a[1], a[0]])             # B reads (w, v) by name
+
+        S.forall("intermediate-result-is-handed-over-by-name", o.f["_t"], lambda q: zreal(t.at(q)) == core.select_comp(q[1][0], 2, [(lambda c=c: want(q)[c]) for c in range(2)]))
+        Cm = AbstractModel(S, "C", mul(S, S.new(RN, "r", 1), S.new(RN, "s", 1)), u)
+        seq2 = S.new(M + "model.Sequential", A.obj, Cm.obj)
+        S.ensure_raises("second-model-over-foreign-variable-names-is-rejected", lambda: S.method(seq2, "forward", p), ["ValueError", "KeyError", "AssertionError"])
     else:
         A = AbstractModel(S, "A", S.new(RN, "x", 2), S.new(RN, "u", 1))
         Bm = AbstractModel(S, "B", tx, S.new(RN, "v", 1))
